@@ -75,9 +75,15 @@ def get_system(name, space="grid"):
     key = (name, space)
     if key not in _sys_cache:
         s = rdsystem_from_dict(json.loads(json.dumps(SYSTEMS[name])))
-        if space == "graph":
-            from strengths import RDSystem
-            s = RDSystem(network=s.network, space=grid_to_graph(s.space), state=s.state,
+        if space in ("graph", "graphloop"):
+            from strengths import RDSystem, RDGraphSpace
+            from strengths.rdgraphspace import RDGraphSpaceEdge
+            g = grid_to_graph(s.space)
+            if space == "graphloop":
+                # valid input with degenerate structure: a self-loop on each node (same state size as every other system)
+                g = RDGraphSpace(nodes=g.nodes, edges=list(g.edges) + [RDGraphSpaceEdge(i, i, 1, 1) for i in range(g.size())],
+                                 units_system=g.units_system)
+            s = RDSystem(network=s.network, space=g, state=s.state,
                          chemostats=s.chemostats, units_system=s.units_system)
         _sys_cache[key] = s
     return _sys_cache[key]
